@@ -26,7 +26,7 @@ REQUIRED = {t: {"runs": 500, "cliques_checked_for_maximality": 2000, "top_order_
 
 
 def gen_cases(tier, seed):
-    n = 400 if tier == "quick" else 8000
+    n = 400 if tier == "quick" else 24000
     return [{"seed": seed * 100237 + i} for i in range(n)]
 
 
